@@ -251,6 +251,338 @@ def inplace_changes(root: ast.AST) -> list[tuple[ast.AST, ast.AST, str, bool]]:
     return out
 
 
+# ------------------------------------------------------------------ a fresh set that is still being built
+# `N = set(x); N -= y` computes the same value as `N = set(x) - y` -- as long as N's object is the one the
+# function itself has just created and nobody else can hold it yet.  The rules read the value of a set off its
+# DEFINING EXPRESSION (C15.SETS) and treat in-place changes as edits of an object that may be shared
+# (C15.FROZEN); both follow such straight-line building once the in-place step is read as what it is on an
+# unshared object: a rebinding to the functional form of the operation.
+_SET_BINOPS = (ast.Sub, ast.BitOr, ast.BitAnd, ast.BitXor)
+_SET_ONLY_FUNCTIONAL = ("difference", "union", "intersection", "symmetric_difference")
+_SET_NONMUTATING = _SET_ONLY_FUNCTIONAL + ("copy", "issubset", "issuperset", "isdisjoint")
+_VALUE_READERS = ("len", "set", "frozenset", "list", "tuple", "sorted", "sum", "min", "max", "any", "all", "bool",
+                  "str", "repr")
+# in-place method -> functional method of the same operation (None: spelled with an operator on a one-element set)
+_FUNCTIONAL_FORM = {"difference_update": "difference", "update": "union", "intersection_update": "intersection",
+                    "symmetric_difference_update": "symmetric_difference", "add": None, "discard": None}
+
+
+def fresh_set_expr(v: ast.AST | None, set_names: "frozenset[str] | set[str]" = frozenset()) -> bool:
+    """Does evaluating `v` CREATE a set object (one that nothing else refers to yet)?  `set(..)`, a set display /
+    comprehension, `a.difference(b)` / union / intersection / symmetric_difference (methods only sets have),
+    `s.copy()` of a set, and `a - b`, `a | b`, `a & b`, `a ^ b` with an operand that is known to be a set
+    (a created set, a `.keys()` / `.items()` view, a local in `set_names`)."""
+    def settish(e: ast.AST) -> bool:
+        if isinstance(e, ast.Name):
+            return e.id in set_names
+        if isinstance(e, ast.Call) and isinstance(e.func, ast.Attribute) and e.func.attr in ("keys", "items") \
+                and not e.args and not e.keywords:
+            return True
+        return fresh_set_expr(e, set_names)
+
+    if isinstance(v, (ast.Set, ast.SetComp)):
+        return True
+    if isinstance(v, ast.Call) and not v.keywords:
+        if isinstance(v.func, ast.Name) and v.func.id == "set" and len(v.args) <= 1 \
+                and not any(isinstance(a, ast.Starred) for a in v.args):
+            return True
+        if isinstance(v.func, ast.Attribute):
+            if v.func.attr in _SET_ONLY_FUNCTIONAL:
+                return True
+            if v.func.attr == "copy" and not v.args:
+                return settish(v.func.value)
+    if isinstance(v, ast.BinOp) and isinstance(v.op, _SET_BINOPS):
+        return settish(v.left) or settish(v.right)
+    return False
+
+
+def _plain_binding(s: ast.AST) -> tuple[str, ast.AST] | None:
+    """`N = e` / `N: T = e` with one plain name as the target -> (N, e)."""
+    if isinstance(s, ast.Assign) and len(s.targets) == 1 and isinstance(s.targets[0], ast.Name):
+        return s.targets[0].id, s.value
+    if isinstance(s, ast.AnnAssign) and isinstance(s.target, ast.Name) and s.value is not None:
+        return s.target.id, s.value
+    return None
+
+
+def _inplace_step(s: ast.AST) -> tuple[str, ast.AST] | None:
+    """A STATEMENT that changes the set held by a plain local in place and has a functional twin:
+    `N -= x`, `N |= x`, `N &= x`, `N ^= x`, `N.difference_update(..)`, `N.update(..)`, `N.intersection_update(..)`,
+    `N.symmetric_difference_update(x)`, `N.add(k)`, `N.discard(k)` -> (N, the expression `N <op> x` of the new value).
+    (`remove` / `pop` can raise and `clear` forgets the value: they have no twin and stay in-place changes.)"""
+    if isinstance(s, ast.AugAssign) and isinstance(s.target, ast.Name) and isinstance(s.op, _SET_BINOPS):
+        return s.target.id, ast.BinOp(left=ast.Name(id=s.target.id, ctx=ast.Load()), op=s.op, right=s.value)
+    if isinstance(s, ast.Expr) and isinstance(s.value, ast.Call) and isinstance(s.value.func, ast.Attribute) \
+            and isinstance(s.value.func.value, ast.Name) and s.value.func.attr in _FUNCTIONAL_FORM \
+            and not s.value.keywords and not any(isinstance(a, ast.Starred) for a in s.value.args):
+        c = s.value
+        name, meth = c.func.value.id, c.func.attr  # type: ignore[attr-defined]
+        twin = _FUNCTIONAL_FORM[meth]
+        if twin is None:
+            if len(c.args) != 1:
+                return None
+            return name, ast.BinOp(left=ast.Name(id=name, ctx=ast.Load()), op=ast.BitOr() if meth == "add" else ast.Sub(),
+                                   right=ast.Set(elts=[c.args[0]]))
+        if meth == "symmetric_difference_update" and len(c.args) != 1:
+            return None
+        return name, ast.Call(func=ast.Attribute(value=ast.Name(id=name, ctx=ast.Load()), attr=twin, ctx=ast.Load()),
+                              args=list(c.args), keywords=[])
+    return None
+
+
+def _parents(root: ast.AST) -> dict[int, ast.AST]:
+    out: dict[int, ast.AST] = {}
+    for p in ast.walk(root):
+        for c in ast.iter_child_nodes(p):
+            out[id(c)] = p
+    return out
+
+
+def _reads_value_only(use: ast.Name, parents: dict[int, ast.AST]) -> bool:
+    """The occurrence `use` of a variable only looks at the VALUE of its object: nothing keeps a reference to
+    the object (no second name, no container, no callee, no result) and nothing changes it."""
+    p = parents.get(id(use))
+    if p is None:
+        return True                                             # the whole test of an if / while, the iterable of a for
+    if isinstance(p, (ast.Compare, ast.FormattedValue)) or (isinstance(p, ast.UnaryOp) and isinstance(p.op, ast.Not)):
+        return True
+    if isinstance(p, ast.BoolOp):
+        return _reads_value_only(p, parents)                    # `N or x` may BE N's object: judged where it is used
+    if isinstance(p, ast.BinOp) and isinstance(p.op, _SET_BINOPS):
+        return True                                             # a new object
+    if isinstance(p, (ast.If, ast.While, ast.IfExp)) and p.test is use:
+        return True
+    if isinstance(p, (ast.For, ast.AsyncFor)) and p.iter is use:
+        return True
+    if isinstance(p, ast.comprehension) and p.iter is use:
+        comp = parents.get(id(p))
+        if isinstance(comp, ast.GeneratorExp):                  # lazy: fine only when consumed on the spot
+            q = parents.get(id(comp))
+            return isinstance(q, ast.Call) and isinstance(q.func, ast.Name) and q.func.id in _VALUE_READERS and comp in q.args
+        return isinstance(comp, (ast.ListComp, ast.SetComp, ast.DictComp))
+    if isinstance(p, ast.Call) and use in p.args:
+        if isinstance(p.func, ast.Name) and p.func.id in _VALUE_READERS:
+            return True
+        f = u(p.func)
+        return f.split(".")[0] in ("_logger", "logging", "_log")
+    if isinstance(p, ast.Attribute) and p.value is use and p.attr in _SET_NONMUTATING:
+        q = parents.get(id(p))
+        return isinstance(q, ast.Call) and q.func is p
+    return False
+
+
+def _touches(cfg: CFG, nid: int, name: str) -> bool:
+    """CFG node `nid` binds the variable `name` or changes the object it holds in place."""
+    from ..engine.cfg import own_parts
+    from ..engine.util import node_writes
+
+    n = cfg.nodes[nid]
+    if n.ast is None:
+        return False
+    if n.kind == "handler":
+        return getattr(n.ast, "name", None) == name
+    if any(isinstance(w, ast.Name) and w.id == name for w in node_writes(cfg, nid)):
+        return True
+    for part in own_parts(n):
+        if isinstance(part, (ast.FunctionDef, ast.AsyncFunctionDef, ast.ClassDef)) and part.name == name:
+            return True
+        if isinstance(part, (ast.Import, ast.ImportFrom)) and any((a.asname or a.name.split(".")[0]) == name for a in part.names):
+            return True
+        if any(isinstance(recv, ast.Name) and recv.id == name for _c, recv, _t, _g in inplace_changes(part)):
+            return True
+    return False
+
+
+def _known_set_names(root: ast.AST) -> set[str]:
+    """Locals every binding of which creates a set (least fixpoint over the plain bindings of the function)."""
+    from ..engine.resolver import walk_no_nested
+
+    binds: dict[str, list[ast.AST | None]] = {}
+    for s in walk_no_nested(root):
+        pb = _plain_binding(s)
+        if pb is not None:
+            binds.setdefault(pb[0], []).append(s)
+            continue
+        for x in ast.walk(s) if isinstance(s, (ast.Assign, ast.AnnAssign, ast.AugAssign, ast.NamedExpr, ast.Delete)) else []:
+            if isinstance(x, ast.Name) and isinstance(x.ctx, (ast.Store, ast.Del)):
+                binds.setdefault(x.id, []).append(None)
+        if isinstance(s, (ast.For, ast.AsyncFor, ast.comprehension)):
+            for x in ast.walk(s.target):
+                if isinstance(x, ast.Name):
+                    binds.setdefault(x.id, []).append(None)
+        elif isinstance(s, ast.withitem) and s.optional_vars is not None:
+            for x in ast.walk(s.optional_vars):
+                if isinstance(x, ast.Name):
+                    binds.setdefault(x.id, []).append(None)
+        elif isinstance(s, ast.ExceptHandler) and s.name:
+            binds.setdefault(s.name, []).append(None)
+    a = getattr(root, "args", None)
+    if a is not None:
+        for p in a.posonlyargs + a.args + a.kwonlyargs + [x for x in (a.vararg, a.kwarg) if x is not None]:
+            binds.setdefault(p.arg, []).append(None)
+    known: set[str] = set()
+    for _ in range(4):
+        new = {nm for nm, bs in binds.items() if all(
+            b is not None and (getattr(b, "_c15_fresh", False) or fresh_set_expr(_plain_binding(b)[1], known))  # type: ignore[index]
+            for b in bs)}
+        if new == known:
+            break
+        known = new
+    return known
+
+
+def rebind_fresh_builds(fn: ast.AST, rounds: int = 6) -> ast.AST:
+    """Analysis view of a function in which the straight-line BUILDING of a set the function has just created
+    is written as what it computes: an in-place step (`N -= x`, `N |= x`, `N.difference_update(x)`, `N.discard(k)` ...)
+    becomes the rebinding `N = N - x` (`N | x`, `N.difference(x)`, `N - {k}` ...) when, at that statement,
+
+      * on EVERY path the last statement that bound N or changed its object is one and the same statement D, and
+        D is `N = <an expression that creates a set>` (`set(..)`, `x.copy()`, a comprehension, `a - b` ...) or an
+        earlier step of the same kind -- so a step inside a loop whose set was created outside it (the value then
+        depends on the iterations), a set that arrives from elsewhere (a parameter, a call result, an attribute) and
+        a set created in only one of two arms do not qualify;
+      * between D and the step N's object cannot have been shared: every occurrence of N on the way only reads
+        its value (len / truth / comparison / iteration / operand of a set operator / `set(N)`, `sorted(N)`, logging
+        ...); a second name, a container, a result constructor, a `return` or any other call that receives it ends
+        the building phase -- from then on an in-place change is an edit of a possibly shared object;
+      * N is an ordinary local (not global / nonlocal, not used by a nested function or lambda).
+
+    Under these conditions the two spellings are the same program: nobody but N can observe whether the old object
+    was changed or a new one was bound.  Everything else is left as it is (and is judged as an in-place change).
+    Works on a deep copy; a rewritten statement keeps its location and is marked `_c15_fresh`."""
+    import copy
+
+    from ..engine import normalize as nz
+    from ..engine.cfg import own_parts
+    from ..engine.resolver import walk_no_nested
+
+    if not any(_inplace_step(s) is not None for s in ast.walk(fn)):
+        return fn
+    root = copy.deepcopy(fn)
+    # `for x in E: N.discard(x)` / `N.add(x)` is `N.difference_update(E)` / `N.update(E)` spelled as a loop: read as
+    # that one step (and put back as the loop it was if the step turns out not to be part of a fresh build)
+    folded: dict[int, tuple[ast.stmt, ast.stmt]] = {}
+    for suite in list(nz._suite_lists(root)):
+        for i, st in enumerate(suite):
+            if not (isinstance(st, ast.For) and isinstance(st.target, ast.Name) and not st.orelse and len(st.body) == 1):
+                continue
+            b = st.body[0]
+            if not (isinstance(b, ast.Expr) and isinstance(b.value, ast.Call) and isinstance(b.value.func, ast.Attribute)
+                    and b.value.func.attr in ("add", "discard") and isinstance(b.value.func.value, ast.Name)
+                    and len(b.value.args) == 1 and not b.value.keywords
+                    and isinstance(b.value.args[0], ast.Name) and b.value.args[0].id == st.target.id):
+                continue
+            recv = b.value.func.value.id
+            inside = {id(y) for y in ast.walk(st)}
+            if any(isinstance(y, ast.Name) and y.id == st.target.id and id(y) not in inside for y in ast.walk(root)):
+                continue                                        # the loop variable is looked at elsewhere: keep the loop
+            if recv == st.target.id or any(isinstance(y, ast.Name) and y.id in (recv, st.target.id) for y in ast.walk(st.iter)) \
+                    or any(isinstance(y, (ast.Await, ast.Yield, ast.YieldFrom, ast.NamedExpr)) for y in ast.walk(st.iter)):
+                continue
+            one = ast.copy_location(ast.Expr(value=ast.Call(
+                func=ast.Attribute(value=ast.Name(id=recv, ctx=ast.Load()),
+                                   attr="update" if b.value.func.attr == "add" else "difference_update", ctx=ast.Load()),
+                args=[st.iter], keywords=[])), st)
+            suite[i] = one
+            folded[id(one)] = (one, st)
+    ast.fix_missing_locations(root)
+    shielded: set[str] = set()
+    for x in ast.walk(root):
+        if isinstance(x, (ast.Global, ast.Nonlocal)):
+            shielded |= set(x.names)
+        elif x is not root and isinstance(x, (ast.FunctionDef, ast.AsyncFunctionDef, ast.Lambda, ast.ClassDef)):
+            shielded |= {y.id for y in ast.walk(x) if isinstance(y, ast.Name)}
+    for _ in range(rounds):
+        cfg = CFG(root)  # type: ignore[arg-type]
+        known = _known_set_names(root)
+        accepted: list[tuple[ast.stmt, str, ast.AST]] = []
+        for s in walk_no_nested(root):
+            step = _inplace_step(s)
+            if step is None or step[0] in shielded:
+                continue
+            name, value = step
+            at = cfg.nodes_of(s)
+            ok = bool(at)
+            for nid in at:
+                # the last statement(s) that touched `name` on the paths into this node
+                last: set[int] = set()
+                seen = {nid}
+                stack = [nid]
+                while stack and ok:
+                    cur = stack.pop()
+                    if cur == cfg.entry:
+                        ok = False                              # a path on which nothing created the set
+                        break
+                    for p, lab in cfg.pred[cur]:
+                        if _touches(cfg, p, name):
+                            if lab.startswith("exc:"):
+                                ok = False                      # the toucher was left half-way
+                                break
+                            last.add(p)
+                        elif p not in seen:
+                            seen.add(p)
+                            stack.append(p)
+                if not ok or len(last) != 1:
+                    ok = False
+                    break
+                d = next(iter(last))
+                dn = cfg.nodes[d]
+                pb = _plain_binding(dn.ast) if dn.kind == "stmt" and dn.ast is not None else None
+                if pb is None or pb[0] != name or not (getattr(dn.ast, "_c15_fresh", False) or fresh_set_expr(pb[1], known)):
+                    ok = False
+                    break
+                # nothing on the way from D to the step can have taken a reference to the object
+                between = (cfg.reachable([d], avoid=[nid], include_src=False) & cfg.co_reachable([nid], avoid=[d])) - {d}
+                between.add(nid)
+                for b in between:
+                    bn = cfg.nodes[b]
+                    if bn.ast is None:
+                        continue
+                    for part in own_parts(bn):
+                        if b == nid:
+                            # the step itself: its receiver / target is N; only the operands are looked at
+                            uses = [y for y in ast.walk(part) if isinstance(y, ast.Name) and y.id == name
+                                    and y is not getattr(s, "target", None)
+                                    and not (isinstance(s, ast.Expr) and y is s.value.func.value)]  # type: ignore[attr-defined]
+                            par = _parents(part)
+                            # (an operand that is N itself, `N -= N`, reads the value)
+                            if not all(_reads_value_only(y, par) or par.get(id(y)) in (s, getattr(s, "value", None))
+                                       for y in uses):
+                                ok = False
+                        else:
+                            par = _parents(part)
+                            if bn.kind == "for" and part is not getattr(bn.ast, "iter", None):
+                                continue
+                            if isinstance(part, ast.Name) and part.id == name and bn.kind not in ("test", "while", "for"):
+                                ok = False                      # e.g. the subject of a `match` (a capture is an alias)
+                            for y in ast.walk(part):
+                                if isinstance(y, ast.Name) and y.id == name and isinstance(y.ctx, ast.Load) \
+                                        and not _reads_value_only(y, par):
+                                    ok = False
+                    if not ok:
+                        break
+                if not ok:
+                    break
+            if ok:
+                accepted.append((s, name, value))
+        if not accepted:
+            break
+        for s, name, value in accepted:
+            new = ast.copy_location(ast.Assign(targets=[ast.Name(id=name, ctx=ast.Store())], value=value), s)
+            new._c15_fresh = True  # type: ignore[attr-defined]
+            new._c15_inplace = u(s)  # type: ignore[attr-defined]
+            for suite in nz._suite_lists(root):
+                for i, st in enumerate(suite):
+                    if st is s:
+                        suite[i] = new
+        ast.fix_missing_locations(root)
+    for suite in nz._suite_lists(root):
+        for i, st in enumerate(suite):
+            if id(st) in folded and folded[id(st)][0] is st:
+                suite[i] = folded[id(st)][1]
+    return root
+
+
 def alias_closure(root: ast.AST, names: set[str]) -> set[str]:
     """Names that may denote the same object as one of `names` inside `root`: closed under plain
     name-to-name bindings `a = b`, `a: T = b`, `(a := b)`, `a = b if c else d` in either direction
@@ -771,8 +1103,13 @@ def analysis_view(prog: Program, fn: FuncInfo) -> FuncInfo:
         keep = anc.names                # functions that play an anchored role are analysed on their own
         # (whether a function called like a role player -- now or historically -- is kept out is decided by
         # identity: only the definitions that play the roles are)
-        per[key] = normalize(prog, splice_tail_helpers(prog, fn, exclude=keep | anc.hints, role_nodes=anc.nodes)[0],
-                             diamonds=False, exclude_helpers=keep)
+        spliced = splice_tail_helpers(prog, fn, exclude=keep | anc.hints, role_nodes=anc.nodes)[0]
+        # a set the function has just created and is still building in place is read as the value it computes
+        # (before the normaliser, so that its name is never mistaken for a single-assignment local, and after it,
+        # when the creating expression came out of an expression helper)
+        spliced = FuncInfo(spliced.name, spliced.module, rebind_fresh_builds(spliced.node), spliced.cls, spliced.outer)  # type: ignore[arg-type]
+        view = normalize(prog, spliced, diamonds=False, exclude_helpers=keep)
+        per[key] = FuncInfo(view.name, view.module, rebind_fresh_builds(view.node), view.cls, view.outer)  # type: ignore[arg-type]
     return per[key]
 
 
